@@ -156,6 +156,25 @@ func bandCfgEvent(name band.Name, rep bool, dwell int) (M, error) {
 	ev["rx1ch"] = rx1ch
 	ev["rx1fq"] = rx1fq
 	ulch, dlch := []interface{}{}, []interface{}{}
+	// indices that are valid ones modulo 2^32 / 2^16 (written 2^30 + low part in the event, see tlcIndex)
+	for _, off := range []int{1 << 32, -(1 << 32), 1 << 16, -(1 << 16), 1 << 62} {
+		for _, k := range []int{0, 1} {
+			ii := k + off
+			var ch band.Channel
+			code := codeErr(func() error {
+				var err error
+				ch, err = b.GetUplinkChannel(ii)
+				return err
+			})
+			ulch = append(ulch, M{"i": tlcIndex(ii), "code": code, "f": freqVal(ch.Frequency), "min": ch.MinDR, "max": ch.MaxDR})
+			code = codeErr(func() error {
+				var err error
+				ch, err = b.GetDownlinkChannel(ii)
+				return err
+			})
+			dlch = append(dlch, M{"i": tlcIndex(ii), "code": code, "f": freqVal(ch.Frequency), "min": ch.MinDR, "max": ch.MaxDR})
+		}
+	}
 	for i := -2; i <= len(sd.UplinkChannels)+1; i++ {
 		ii := i
 		var ch band.Channel
